@@ -49,12 +49,31 @@ def text(token):
 TOKENS = {hashlib.sha1(text("%s.%s" % (i, v))).hexdigest(): "%s.%s" % (i, v) for i in ITEM0 for v in "01"}
 
 
+def versioned(tree):
+    """world.tree_proj, tolerant of versioned paths that are missing on disk (content token '!missing')."""
+    out = {}
+    with tree.lock_read():
+        for path, ie in tree.iter_entries_by_dir():
+            if path == "":
+                continue
+            try:
+                if ie.kind == "file":
+                    out[path] = ["file", hashlib.sha1(tree.get_file_text(path)).hexdigest(), bool(tree.is_executable(path))]
+                elif ie.kind == "symlink":
+                    out[path] = ["symlink", tree.get_symlink_target(path), False]
+                else:
+                    out[path] = [ie.kind, None, False]
+            except Exception as e:
+                out[path] = [ie.kind, "!" + type(e).__name__, False]
+    return out
+
+
 def entries(proj):
     """world.tree_proj / disk_proj output -> sorted list of [p, k, c, x] records with content tokens."""
     out = []
     for p, (kind, val, ex) in sorted(proj.items()):
         if kind == "file":
-            c = TOKENS.get(val, "?" + val[:10])
+            c = TOKENS.get(val, val if val.startswith("!") else "?" + val[:10])
         elif kind == "symlink":
             c = val
         else:
@@ -209,7 +228,13 @@ def _replay(sub, jobs):
     types = merge_types()
     for c, shape in jobs:
         fmt = FMT[c["fl"]]
-        tp, op, obranch, rb, ro, proj = bld.build(c, fmt, shape)
+        try:
+            tp, op, obranch, rb, ro, proj = bld.build(c, fmt, shape)
+        except Exception as e:       # only legitimate for sub-triples of the reduction step that are not well-formed
+            empty = {"base": [], "this": [], "other": [], "tree": [], "disk": [], "conflicts": []}
+            rows.extend({"c": c, "mt": mt, "shape": shape, "impl": empty, "err": "", "lca_trees": False,
+                         "unbuilt": "%s: %s" % (type(e).__name__, str(e)[:200])} for mt in MERGE_TYPES)
+            continue
         for mt in MERGE_TYPES:
             w, mp = bld.copy(tp, "m")
             impl = dict(proj)
@@ -221,15 +246,15 @@ def _replay(sub, jobs):
                     mg = M.Merger.from_revision_ids(w, ro, base=rb, other_branch=obranch)
                     mg.merge_type = types[mt]
                     used_lca = bool(mg._is_criss_cross and mg._lca_trees)
-                    cooked = [k.describe() for k in mg.do_merge()]
+                    cooked = [_conf(k) for k in mg.do_merge()]
             except Exception as e:   # judged through the tree it leaves behind
                 err = "%s: %s" % (type(e).__name__, str(e)[:200])
             try:
-                recorded = [k.describe() for k in w.conflicts()]
+                recorded = [_conf(k) for k in w.conflicts()]
             except Exception as e:
                 recorded = ["conflicts() raised %s" % type(e).__name__]
             impl["conflicts"] = cooked + [k for k in recorded if k not in cooked]
-            impl["tree"] = entries(world.tree_proj(w))
+            impl["tree"] = entries(versioned(w))
             impl["disk"] = entries(world.disk_proj(mp))
             rows.append({"c": c, "mt": mt, "shape": shape, "impl": impl, "err": err, "lca_trees": used_lca})
             sub.count(1)
@@ -239,6 +264,10 @@ def _replay(sub, jobs):
         shutil.rmtree(tp, ignore_errors=True)
         shutil.rmtree(op, ignore_errors=True)
     shutil.rmtree(bld.top, ignore_errors=True)
+
+
+def _conf(k):
+    return "%s: %s" % (getattr(k, "typestring", type(k).__name__), getattr(k, "path", "?"))
 
 
 def _ops(edits, items=False):
@@ -271,9 +300,12 @@ def run(ctx):
                 if fl == "ids" and k % 3 == 0:
                     jobs.append((c, "criss"))
     core.fork_map(ctx, _replay, jobs)
-    rows = ctx.collected
+    rows = list(ctx.collected)
     if len(rows) != len(jobs) * len(MERGE_TYPES):
         ctx.machinery("replayed %d of %d merges" % (len(rows), len(jobs) * len(MERGE_TYPES)))
+    for r in rows:
+        if r.get("unbuilt"):
+            ctx.machinery("could not build the revisions of %s: %s" % (r["c"], r["unbuilt"]))
     criss = [r for r in rows if r["shape"] == "criss"]
     if not criss or not all(r["lca_trees"] for r in criss):
         ctx.machinery("criss-cross histories did not make the merger use LCA trees (%d of %d did)" % (
@@ -284,19 +316,13 @@ def run(ctx):
     ctx.sample(next(r for r in rows if r["c"]["law"] == "L4" and r["c"]["fl"] == "ids" and r["shape"] == "plain"))
     ctx.sample(next(r for r in rows if r["c"]["law"] == "L3" and r["shape"] == "criss" and r["mt"] == "lca"))
     ctx.sample(next(r for r in rows if r["c"]["law"] == "L2" and r["c"]["fl"] == "paths" and r["c"]["dO"]))
-    for row, verdict in _judge(ctx, rows):
-        c = row["c"]
+    bad = _judge(ctx, rows)
+    for row, verdict in bad:
         if not verdict["wf"] or not verdict["fixture"]:
+            c = row["c"]
             ctx.machinery("fixture of %s (%s history) is not the triple of the case: base %s this %s other %s" % (
                 c, row["shape"], row["impl"]["base"], row["impl"]["this"], row["impl"]["other"]))
-        for f in sorted(verdict["failed"]):
-            ctx.violation("%s:%s:%s-tree:%s-history:%s|%s" % (f, row["mt"], FMT[c["fl"]], row["shape"], _ops(c["dT"]),
-                                                                _ops(c["dO"])),
-                          "law %s fails for merge type %s on a %s tree (%s history): BASE %s, THIS edits %s, OTHER edits %s; "
-                          "working tree %s, on disk %s, conflicts %s%s; the law demands %s" % (
-                              f, row["mt"], FMT[c["fl"]], row["shape"], c["base"], _ops(c["dT"], True), _ops(c["dO"], True),
-                              row["impl"]["tree"], row["impl"]["disk"], row["impl"]["conflicts"],
-                              (", do_merge raised " + row["err"]) if row["err"] else "", verdict["want"]), row)
+    _report(ctx, [(r, v) for r, v in bad if v["failed"]])
     ctx.rule("TLC enumerates, for BASE item sets %(Bases)s and both tree flavours, every well-formed triple per law: laws "
              "1-3 with edit sets of <= %(MaxSide)s edits, law 4 with <= %(MaxPair)s edits per side (edits: mod / ren / mov "
              "/ del / chm / knd on a, b, d, d/a and add of n, d/n)" % consts +
@@ -311,6 +337,75 @@ def run(ctx):
     ctx.assume("git trees: a file is a path; law 4 is stated on path-level changes and directories are implicit")
     ctx.assume("contents are ten-line texts, the modified version changes one line and appends one (git rename detection "
                "sees renamed-and-modified files as renames)")
+
+
+def _key(c):
+    return (c["fl"], tuple(c["base"]), _ops(c["dT"], True), _ops(c["dO"], True))
+
+
+def _kinds(edits):
+    return "+".join(sorted("%s(%s)" % (e["op"], ITEM0[e["i"]][2]) for e in edits)) or "-"
+
+
+def _report(ctx, bad):
+    """Violations.  Every failing triple is first reduced: all sub-triples (subsets of the two edit sets) are replayed
+    and judged the same way, and the failure is reported under the smallest sub-triple that still fails the same clause,
+    so that one defect has one signature whatever unrelated edits accompany it:
+        <failed clauses of the reduced triple>:<tree format>:<history shape>:<merge types failing on it>:<its edit kinds>"""
+    import itertools
+    if not bad:
+        return
+
+    def subsets(es):
+        return [list(x) for n in range(len(es) + 1) for x in itertools.combinations(es, n)]
+    subs = {}
+    for row, _ in bad:
+        c = row["c"]
+        for t in subsets(c["dT"]):
+            for o in subsets(c["dO"]):
+                k = {"law": "sub", "fl": c["fl"], "base": c["base"], "dT": t, "dO": o}
+                subs[(_key(k), row["shape"])] = (k, row["shape"])
+    before = len(ctx.collected)
+    core.fork_map(ctx, _replay, list(subs.values()))
+    subrows = ctx.collected[before:]
+    failed = {}                                      # (key, shape, mt) -> (failed clauses, row, verdict)
+    for r in subrows:
+        failed[(_key(r["c"]), r["shape"], r["mt"])] = ((), r, None)
+    for r, v in _judge(ctx, subrows):
+        if v["wf"] and r.get("unbuilt"):
+            ctx.machinery("could not build the revisions of the well-formed triple %s: %s" % (r["c"], r["unbuilt"]))
+        if v["wf"] and v["fixture"]:
+            failed[(_key(r["c"]), r["shape"], r["mt"])] = (tuple(sorted(v["failed"])), r, v)
+    groups = {}
+    for row, verdict in bad:
+        c = row["c"]
+        want = {f.split(".")[1] for f in verdict["failed"]}
+        best = None
+        for t in subsets(c["dT"]):
+            for o in subsets(c["dO"]):
+                k = {"law": "sub", "fl": c["fl"], "base": c["base"], "dT": t, "dO": o}
+                f = failed.get((_key(k), row["shape"], row["mt"]), ((), None, None))
+                if want & {x.split(".")[1] for x in f[0]}:
+                    rank = (len(t) + len(o), _key(k))
+                    if best is None or rank < best[0]:
+                        best = (rank, k, f)
+        if best is None:                             # not reproduced on the second run: report the row as it is
+            best = ((0,), c, (tuple(sorted(verdict["failed"])), row, verdict))
+        groups.setdefault((_key(best[1]), row["shape"]), [best[1], best[2], row, set()])[3].add(row["mt"])
+    for (key, shape), (k, f, example, _) in sorted(groups.items(), key=lambda kv: kv[0]):
+        mts = [mt for mt in MERGE_TYPES if failed.get((key, shape, mt), ((),))[0]] or sorted(groups[(key, shape)][3])
+        clauses = sorted({x for mt in MERGE_TYPES for x in failed.get((key, shape, mt), ((),))[0]} or f[0])
+        r, v = f[1], f[2]
+        ctx.violation("%s:%s-tree:%s-history:%s:%s|%s" % ("+".join(clauses), FMT[k["fl"]], shape, "+".join(mts),
+                                                          _kinds(k["dT"]), _kinds(k["dO"])),
+                      "laws %s fail for merge types %s on a %s tree (%s history): BASE %s, THIS edits %s, OTHER edits %s; "
+                      "working tree %s, on disk %s, conflicts %s%s; the law demands %s (reduced from THIS %s, OTHER %s)" % (
+                          clauses, mts, FMT[k["fl"]], shape, k["base"], _ops(k["dT"], True), _ops(k["dO"], True),
+                          [tuple(e.values()) for e in r["impl"]["tree"]], [tuple(e.values()) for e in r["impl"]["disk"]],
+                          r["impl"]["conflicts"], (", do_merge raised " + r["err"]) if r["err"] else "",
+                          [tuple(e.values()) for e in (v or {}).get("want", [])],
+                          _ops(example["c"]["dT"], True), _ops(example["c"]["dO"], True)),
+                      {"reduced": r, "example": example})
 
 
 def _judge(ctx, rows, chunk=5000):
